@@ -90,6 +90,7 @@ def all_jobs(info):
         ('C12/File/uncompressedFile2ReadWriteQueue/drops-consumed-data-once-per-delivered-object', 'g_drop_calls == g_push_calls'),
         ('C09/File/uncompressedFile2ReadWriteQueue/unknown-type-is-skipped-by-its-declared-size-from-the-object-start', '!(vb_exc == 0 && g_sig_pos >= 0 && g_created == 0 && g_push_calls == 0 && g_delete_calls == 0 && U.m_rdstate == 0) || U.m_tellg == ((g_sig_pos + (int64_t)vb_last_osize < U.m_fileSize) ? g_sig_pos + (int64_t)vb_last_osize : U.m_fileSize)'),
         ('C10/File/uncompressedFile2ReadWriteQueue/skipping-an-unknown-object-makes-progress-or-reaches-the-declared-end', '!(vb_exc == 0 && g_sig_pos >= 0 && g_created == 0 && U.m_rdstate == 0) || U.m_tellg > g0 || U.m_tellg == U.m_fileSize'),
+        ('C10/File/uncompressedFile2ReadWriteQueue/a-header-declaring-less-than-its-own-16-bytes-ends-the-read-without-creating-an-object', '!(g_sig_pos >= 0 && vb_last_osize < 16) || (vb_exc == VB_EXC_BLF && g_push_calls == 0 && g_delete_calls == 0)'),
         ('C10/File/uncompressedFile2ReadWriteQueue/position-stays-inside-the-stream', 'U.m_tellg <= U.m_fileSize'),
     ]
     for l, c in asr: b += A(l, c)
